@@ -43,12 +43,25 @@ def patStep (c : Char) : Bool × Nat :=
   else if 'a' ≤ c ∧ c ≤ 'i' then (true, c.toNat - 96)
   else (false, 0)
 
+/-- `E` in an outer pattern = `for_each` over the rest (internal iteration: `fold`, which by its
+provided definition is `next` until `None`): replaced by as many `F` as vectors are left by the
+contract of the calls made so far -/
+def expandE : Nat → List Char → List Char
+  | _, [] => []
+  | remaining, c :: rest =>
+    if c = 'E' then List.replicate remaining 'F' ++ expandE 0 rest
+    else
+      let d := (patStep c).2
+      c :: expandE (if d + 1 ≤ remaining then remaining - (d + 1) else 0) rest
+
 /-- drain one inner iterator along `ipat` (cycled), updating memory at the yielded addresses;
 the `t`-th position is tracked the way a client does: front and back counters -/
 def thrInner (cfg : Cfg) (k vl : Nat) : Nat → List Char → List Char → Nth → Nat → Nat → Array Nat → M (Array Nat)
   | 0, _, _, _, _, _, _ => .error .fuel
   | fuel + 1, ipat, cur, it, f, b, mem => do
     let cur := if cur.isEmpty then ipat else cur
+    -- `E` = `for_each` over the rest = `next` until `None`
+    let (ipat, cur) := if cur.head? = some 'E' then (['F'], ['F']) else (ipat, cur)
     let (back, d) := patStep (cur.head?.getD 'F')
     let (a, it') ← if back then nthVia (·.nextBack cfg) d it else nthVia (·.next cfg) d it
     match a with
@@ -99,7 +112,7 @@ def cmdTraits (ws : List String) : Option String :=
     let res := do
       let it ← if rows then Vecs.rowsMut cfg o sh else Vecs.colsMut cfg o sh
       let n ← it.len cfg
-      let (mem, ys) ← thrOuter cfg al vl ipat.toList opat.toList it 0 0 mem0 []
+      let (mem, ys) ← thrOuter cfg al vl ipat.toList (expandE al opat.toList) it 0 0 mem0 []
       pure (n, mem, ys)
     match res with
     | .error e => pure (faultStr e)
